@@ -61,7 +61,19 @@ BV = boundary_values()
 
 def gen_number(rng, base):
     k = rng.random()
-    if k < 0.55:
+    if k < 0.18:
+        # the loop state AFTER an overflow was detected: a boundary value (in particular cutoff followed by a
+        # digit above/below cutlim) extended by further digits, so that later iterations run with any < 0
+        lim = rng.choice([I63 - 1, I63])
+        head = to_base(lim // base, base)
+        d1 = rng.randrange(base)
+        tail = bytes(DIG[rng.randrange(base)] for _ in range(rng.choice([0, 1, 1, 2, 3])))
+        if rng.random() < 0.5 and tail:
+            tail = tail[:-1] + bytes([DIG[rng.randrange(0, (lim % base) + 1)]])
+        return head + bytes([DIG[d1]]) + tail
+    if k < 0.28:
+        return to_base(rng.choice(BV), base) + bytes(DIG[rng.randrange(base)] for _ in range(rng.choice([1, 1, 2, 3])))
+    if k < 0.6:
         v = rng.choice(BV)
     elif k < 0.8:
         v = rng.getrandbits(rng.choice([3, 8, 16, 31, 32, 62, 63, 64, 65, 70, 90]))
